@@ -121,6 +121,10 @@ type c14Comp struct {
 	sent           map[int]map[string]bool     // source -> packets sent (ground truth)
 	declared       map[c14FedKey]int           // key -> number of messages declared under it
 	fed            map[c14FedKey][][][]byte    // key -> idx -> distinct payloads that arrived
+	// virtual time at which each pending entry (by identity, not by key: a key can be re-used by a later
+	// message) was first seen in the table, i.e. when its first chunk arrived. Ground truth for the TTL
+	// oracle, independent of the deadline field the implementation maintains.
+	first map[*reassemblyEntry]time.Time
 }
 
 func (c *c14Comp) closeAll() {
@@ -145,6 +149,7 @@ func (c *c14Comp) reset(mn, mx int) {
 	c.sent = map[int]map[string]bool{}
 	c.declared = map[c14FedKey]int{}
 	c.fed = map[c14FedKey][][][]byte{}
+	c.first = map[*reassemblyEntry]time.Time{}
 }
 
 func (c *c14Comp) ensure() {
@@ -305,6 +310,30 @@ func (c *c14Comp) stateOracle() []string {
 	census := map[string]int{}
 	now := time.Now()
 	late := 0
+	// first-arrival bookkeeping: entries that appeared during this op arrived now (virtual time does not
+	// move inside an op that delivers datagrams); entries that left the table are forgotten
+	arrivals := make(map[*reassemblyEntry]time.Time, len(g.reassembly))
+	overdue, worst := 0, time.Duration(0)
+	for _, e := range g.reassembly {
+		t, ok := c.first[e]
+		if !ok {
+			t = now
+		}
+		arrivals[e] = t
+		// forgotten after its TTL, whatever anyone sends: the first gcLoop tick after arrival+TTL comes at most
+		// TTL/2 later, so an entry whose first chunk arrived TTL + TTL/2 ago or earlier cannot be here any more
+		if age := now.Sub(t); age >= geckoReassemblyTTL+geckoReassemblyTTL/2 {
+			overdue++
+			if age > worst {
+				worst = age
+			}
+		}
+	}
+	c.first = arrivals
+	if overdue > 0 {
+		orc = append(orc, fmt.Sprintf("ttl: %d incomplete message(s) still pending %v after their first chunk arrived (TTL %v, gc every %v)",
+			overdue, worst, geckoReassemblyTTL, geckoReassemblyTTL/2))
+	}
 	for k, e := range g.reassembly {
 		census[k.addr]++
 		if !now.Before(e.deadline.Add(geckoReassemblyTTL / 2)) {
@@ -889,8 +918,16 @@ func (c *c14Comp) Run(op string) vh.Result {
 		if out == "panic" {
 			orc = append(orc, "panic in gcExpired")
 		}
-		// entries whose deadline is before `at` must be gone
+		// entries whose first chunk arrived more than a TTL before `at` must be gone (ground truth, not the deadline field)
 		c.rx.mu.Lock()
+		for k, e := range c.rx.reassembly {
+			if t, ok := c.first[e]; ok && c.t0.Add(time.Duration(at)).After(t.Add(geckoReassemblyTTL)) {
+				orc = append(orc, fmt.Sprintf("ttl: entry %s/%d survived a gc run %v after its first chunk arrived (TTL %v)",
+					k.addr, k.msgID, c.t0.Add(time.Duration(at)).Sub(t), geckoReassemblyTTL))
+				break
+			}
+		}
+		// entries whose deadline is before `at` must be gone
 		for k, e := range c.rx.reassembly {
 			if c.t0.Add(time.Duration(at)).After(e.deadline) {
 				orc = append(orc, fmt.Sprintf("ttl: entry %s/%d survived a gc past its deadline", k.addr, k.msgID))
@@ -1530,6 +1567,69 @@ func c14GenSelfEvict(r *vh.RNG, emit c14Emit) {
 	emit("dump", "dump")
 }
 
+// pin: an attacker replays captured chunks more often than the TTL, across several TTLs, with ticks and
+// direct gc runs in between: every pending message must still be forgotten after its TTL, and the source's
+// slots must be free again (it was at its cap; a new message is then admitted).
+func c14GenPin(r *vh.RNG, emit c14Emit) {
+	emit("reset 512 1200", "reset")
+	src := r.Range(1, 3)
+	n := r.Pick([]int{1, 3, geckoMaxPerSource, geckoMaxPerSource})
+	type ref struct{ mid, total, idx int }
+	var ms []ref
+	frame := func(x ref, i int) string {
+		return c14Dg(src, c14Frame(0x80, x.mid, i, x.total, nil, []byte{byte(src), byte(x.mid), byte(i)}))
+	}
+	for j := 0; j < n; j++ {
+		x := ref{(40 + j*31) % 256, r.Range(2, 5), 0}
+		x.idx = r.Intn(x.total)
+		ms = append(ms, x)
+		emit("rx 4096 "+frame(x, x.idx), "pin-open")
+	}
+	if n == geckoMaxPerSource {
+		emit("rx 4096 "+frame(ref{250, 2, 0}, 0), "pin-refused") // at the cap
+	}
+	replay := func() {
+		// the same chunk again (a duplicate), sometimes a chunk with a wrong count (dropped as inconsistent),
+		// several in one ReadFrom round
+		var parts []string
+		for _, x := range ms {
+			if r.Chance(3, 4) {
+				parts = append(parts, frame(x, x.idx))
+			}
+			if r.Chance(1, 6) {
+				parts = append(parts, frame(ref{x.mid, 2 + (x.total-1)%7, 0}, 0))
+			}
+		}
+		if len(parts) == 0 {
+			parts = append(parts, frame(ms[0], ms[0].idx))
+		}
+		emit("rx 4096 "+strings.Join(parts, " "), "pin-replay")
+	}
+	// phase 1: replays every < TTL until just before arrival + TTL + TTL/2; at that instant the messages
+	// must be gone and the source must have its slots back: a full set of new messages is admitted
+	for _, d := range []int{3000000000, 3000000000, 3000000000, 2900000000} {
+		emit(fmt.Sprintf("adv %d", d), "pin-adv")
+		replay()
+	}
+	emit("adv 100000000", "pin-adv") // now = first arrival + 12 s
+	for j := 0; j < geckoMaxPerSource; j++ {
+		emit("rx 4096 "+frame(ref{(7 + j*13) % 256, 2, 0}, 0), "pin-new")
+	}
+	// phase 2: keep replaying across several TTLs at a random interval, gc runs in between (in the code as it
+	// is a replay after expiry opens a NEW entry: the oracle follows entries by identity, not by key)
+	step := r.Pick([]int{1000000000, 3000000000, 3999999999, 7000000000, 7999999999})
+	clock := 12000000000
+	for clock < 6*int(geckoReassemblyTTL) {
+		emit(fmt.Sprintf("adv %d", step), "pin-adv")
+		clock += step
+		replay()
+		if r.Chance(1, 3) {
+			emit(fmt.Sprintf("gc %d", clock), "pin-gc")
+		}
+	}
+	emit("dump", "dump")
+}
+
 // wrap: one real sender writes more than 256 packets (the 8-bit id wraps); some messages stay
 // incomplete, so that a later message with the same id may meet them.
 func c14GenWrap(r *vh.RNG, emit c14Emit, count int) {
@@ -1576,8 +1676,10 @@ func (c *c14Comp) Gen(r *vh.RNG, n int, emit func(op string, tags ...string)) {
 			c14GenReuse(r, em)
 		case k < 60:
 			c14GenPerCap(r, em)
-		case k < 70:
+		case k < 66:
 			c14GenTTL(r, em)
+		case k < 72:
+			c14GenPin(r, em)
 		case k < 85:
 			c14GenWriter(r, em)
 		default:
